@@ -31,6 +31,8 @@ type winKnobs struct {
 	AllowIDP        bool  `json:"allow_idp_initiated,omitempty"`       // ServiceProvider.AllowIDPInitiated: says nothing about any validity window
 	// ForceAuthn: ServiceProvider.ForceAuthn is set (what the SP asks for in its requests): says nothing about any validity window
 	ForceAuthn *bool `json:"force_authn,omitempty"`
+	// ReqIDHook: the application installs ValidateRequestID (one that matches InResponseTo exactly like the library's default)
+	ReqIDHook bool `json:"custom_request_id_validator,omitempty"`
 }
 
 type winStep struct {
@@ -104,6 +106,7 @@ func genLattice(g *Rng, idx uint64) *Plan {
 		AudienceHook:    g.Bool(0.15),
 		AllowIDP:        g.Bool(0.2),
 		ForceAuthn:      Pick[*bool](g, nil, nil, nil, bp(true), bp(true), bp(false)),
+		ReqIDHook:       g.Bool(0.15),
 	}
 	st := winStep{Kind: "deliver", Entry: Pick(g, "xml", "xml", "post"), Lattice: int(idx) + 1}
 	st.SkewMs = Pick(g, int64(0), 1000, -1000, 250_000, -250_000)
@@ -188,6 +191,7 @@ func genWindows(g *Rng, tier string) *Plan {
 		AudienceHook:    g.Bool(0.15),
 		AllowIDP:        g.Bool(0.2),
 		ForceAuthn:      Pick[*bool](g, nil, nil, nil, bp(true), bp(true), bp(false)),
+		ReqIDHook:       g.Bool(0.15),
 	}
 	p := &Plan{Knobs: mustJSON(k)}
 	n := 1 + g.PickW(6, 3, 1)
@@ -353,6 +357,22 @@ func execWindows(t *testing.T, p *Plan) *Result {
 	}
 	spv.AllowIDPInitiated = k.AllowIDP
 	spv.ForceAuthn = k.ForceAuthn
+	if k.ReqIDHook {
+		// the application matches responses to requests itself, the way the library does by default
+		res.probe("config:custom-request-id-validator")
+		allow := k.AllowIDP
+		spv.ValidateRequestID = func(r saml.Response, possible []string) error {
+			for _, id := range possible {
+				if r.InResponseTo == id {
+					return nil
+				}
+			}
+			if allow {
+				return nil
+			}
+			return fmt.Errorf("custom validator: not an answer to a request of ours")
+		}
+	}
 	if k.ForceAuthn != nil {
 		res.probe(fmt.Sprintf("sp-force-authn:%v", *k.ForceAuthn))
 	}
